@@ -145,7 +145,7 @@ fn run_once(c: &Case, hash_seed: u64, out: &mut Outcome) -> Option<Vec<Vec<(Vec<
     };
     out.nontrivial = true;
     out.count("c13.ok", 1);
-    let cx = Ctx { w, k: &c.knobs };
+    let cx = Ctx { w, k: &c.knobs, undeclared_ref_scripts: Default::default() };
     let mut grouping: Vec<Vec<(Vec<u8>, u64)>> = vec![];
     let mut spent: BTreeMap<(Vec<u8>, u64), usize> = BTreeMap::new();
     let mut ntx = 0;
